@@ -52,6 +52,8 @@ def noise_menu(delta):
     m.append(("misplaced-last",))
     m.append(("misplaced-first-inside",))      # terminal exon aligned inside the first annotated intron
     m.append(("trunc-left",))
+    m.append(("tiny-first",))                  # 3-bp first block right behind the first annotated exon, its bases mismatching the reference
+    m.append(("tiny-last",))                   # mirror image: 3-bp last block right before the last annotated exon
     m.append(("aligned-polya",))               # the polyA tail aligned as a separate terminal block behind a spurious intron (IsoQuant trims it)
     return m
 
@@ -110,7 +112,21 @@ def derive(devs):
             if ln < 40:
                 return None
             edits.append([i, ln - 8, "D", 3])
-    if any(b[0] > b[1] - 9 for b in blocks) or any(blocks[k][1] + 20 >= blocks[k + 1][0] for k in range(len(blocks) - 1)) or blocks[0][0] < 50:
+    tiny = set()
+    if "tiny-first" in names:
+        if len(names) > 1:
+            return None
+        blocks[0] = [E["e0"][1] + 3, E["e0"][1] + 5]
+        edits.append([0, 0, "X", 3])
+        tiny.add(0)
+    if "tiny-last" in names:
+        if len(names) > 1:
+            return None
+        blocks[-1] = [E["e4b"][0] - 5, E["e4b"][0] - 3]
+        edits.append([len(blocks) - 1, 0, "X", 3])
+        tiny.add(len(blocks) - 1)
+    if any(b[0] > b[1] - 9 for i, b in enumerate(blocks) if i not in tiny) or \
+            any(blocks[k][1] + 20 >= blocks[k + 1][0] for k in range(len(blocks) - 1)) or blocks[0][0] < 50:
         return None
     return [tuple(b) for b in blocks], edits
 
